@@ -546,3 +546,285 @@ Lemma unfixed_items_refuted :
   flat_map (item_evaluates_unfixed vs) (build_items (active_vars 0 vs)) = [(0, 1); (0, 1)] /\
   active_pairs (active_vars 0 vs) = [(0, 1); (0, 2)].
 Proof. vm_compute. split; reflexivity. Qed.
+
+(* =========================================================================================== *)
+(* 4. Footprints of the concrete items                                                          *)
+(* =========================================================================================== *)
+Lemma loc_eqb_spec (a b : loc) : loc_eqb a b = true <-> a = b.
+Proof.
+  destruct a, b; cbn [loc_eqb]; try (split; intros H; [discriminate|inversion H]);
+    try rewrite andb_true_iff; try rewrite !Nat.eqb_eq; try tauto.
+  - split; [intros [H1 H2]; subst; auto|intros H; inversion H; auto].
+  - split; [intros [H1 H2]; subst; auto|intros H; inversion H; auto].
+  - split; [intros H; subst; auto|intros H; inversion H; auto].
+  - split; [intros H; subst; auto|intros H; inversion H; auto].
+  - split; [intros H; subst; auto|intros H; inversion H; auto].
+  - split; [intros H; subst; auto|intros H; inversion H; auto].
+  - split; [intros [H1 H2]; subst; auto|intros H; inversion H; auto].
+Qed.
+
+Notation wfi := (@wf loc Z).
+Notation indepi := (@indep loc Z).
+Notation runi := (run loc_eqb).
+Notation seqi := (@seq_eq loc Z).
+
+Lemma zsum_map_ext {A} (f g : A -> Z) (l : list A) : (forall a, In a l -> f a = g a) -> zsum (map f l) = zsum (map g l).
+Proof. intros H. f_equal. apply map_ext_in; auto. Qed.
+
+Lemma wf_comp p : wfi (comp_item p).
+Proof. intros s s' H l _. cbn [act comp_item]. apply H. cbn [reads comp_item]. left; auto. Qed.
+
+Lemma wf_collect p : wfi (collect_item p).
+Proof.
+  intros s s' H l _. cbn [act collect_item]. apply zsum_map_ext. intros c Hc. f_equal.
+  apply H. cbn [reads collect_item]. apply in_map; auto.
+Qed.
+
+Lemma bias_x_ext bs s s' i : (forall l, In l (map LX (b_vars bs)) -> s l = s' l) -> i < length (b_vars bs) ->
+  bias_x bs s i = bias_x bs s' i.
+Proof. intros H Hi. unfold bias_x. f_equal. apply H. apply in_map. apply nth_In; auto. Qed.
+
+Lemma wf_bias p : wfi (bias_item p).
+Proof.
+  intros s s' H l Hl. cbn [writes bias_item] in Hl. cbn [reads bias_item] in H. cbn [act bias_item].
+  destruct Hl as [Hl|Hl].
+  - subst. f_equal. apply zsum_map_ext. intros i Hi. rewrite in_seq in Hi.
+    rewrite (bias_x_ext (snd p) s s' i); auto. lia.
+  - rewrite in_map_iff in Hl. destruct Hl as (i & E & Hi). subst. rewrite in_seq in Hi.
+    rewrite (bias_x_ext (snd p) s s' i); auto. lia.
+Qed.
+
+Lemma wf_script sc : wfi (script_item sc).
+Proof.
+  intros s s' H l Hl. cbn [writes script_item] in Hl. cbn [reads script_item] in H. cbn [act script_item].
+  assert (Hl' := Hl). rewrite in_map_iff in Hl'. destruct Hl' as (q & E & Hq). subst. f_equal. apply H; auto.
+Qed.
+
+Lemma wf_reset n : wfi (reset_item n).
+Proof. intros s s' H l Hl. reflexivity. Qed.
+
+Lemma wf_energy abs : wfi (energy_item abs).
+Proof.
+  intros s s' H l _. cbn [act energy_item]. apply zsum_map_ext. intros p Hp. apply H.
+  cbn [reads energy_item]. apply (in_map (fun p => LBiasE (fst p))); auto.
+Qed.
+
+Lemma wf_communicate p : wfi (communicate_item p).
+Proof.
+  intros s s' H l Hl. cbn [writes communicate_item] in Hl. cbn [reads communicate_item] in H. cbn [act communicate_item].
+  rewrite in_map_iff in Hl. destruct Hl as (v & E & Hv). subst. f_equal.
+  - apply H. rewrite in_app_iff. left. apply in_map; auto.
+  - unfold bias_force_on. apply zsum_map_ext. intros i Hi.
+    destruct (Nat.eqb (nth i (b_vars (snd p)) 0) v); auto. f_equal.
+    apply H. rewrite in_app_iff. right. apply in_map; auto.
+Qed.
+
+Lemma wf_force t p : wfi (force_item t p).
+Proof.
+  intros s s' H l _. cbn [act force_item]. destruct (awake (v_tsf (snd p)) t); auto.
+  apply H. cbn [reads force_item]. left; auto.
+Qed.
+
+Lemma Forall_map_wf {A} (f : A -> sitem) (l : list A) : (forall a, wfi (f a)) -> Forall wfi (map f l).
+Proof. intros H. rewrite Forall_forall. intros x Hx. rewrite in_map_iff in Hx. destruct Hx as (a & E & _). subst. auto. Qed.
+
+(* distinct components write distinct component state and read only engine data *)
+Lemma indep_comp_comp p q : p <> q -> indepi (comp_item p) (comp_item q).
+Proof.
+  intros Hne. destruct p as [v c], q as [v' c']. unfold indep. cbn [writes reads comp_item fst snd].
+  split; [|split]; intros l [Hl|[]] [Hl'|[]]; subst; try discriminate. inversion Hl'; subst. auto.
+Qed.
+
+(* the collection phase of variable v is independent of the components of every other variable *)
+Lemma indep_collect_comp (p : nat * var) (q : nat * nat) : fst p <> fst q -> indepi (collect_item p) (comp_item q).
+Proof.
+  intros Hne. unfold indep. cbn [writes reads comp_item collect_item].
+  split; [|split].
+  - intros l [Hl|[]] [Hl'|[]]; subst; discriminate.
+  - intros l [Hl|[]] [Hl'|[]]; subst; discriminate.
+  - intros l [Hl|[]] Hl'; subst. rewrite in_map_iff in Hl'. destruct Hl' as (c & E & _). inversion E. auto.
+Qed.
+
+(* distinct biases write their own energy / forces and read only variable values *)
+Lemma indep_bias_bias p q : fst p <> fst q -> indepi (bias_item p) (bias_item q).
+Proof.
+  intros Hne. unfold indep. cbn [writes reads bias_item].
+  assert (Hw : forall (b : nat) n l, In l (LBiasE b :: map (LBiasF b) (seq 0 n)) -> (l = LBiasE b \/ exists i, l = LBiasF b i)).
+  { intros b n l [H|H]; [left; auto|right]. rewrite in_map_iff in H. destruct H as (i & E & _). eauto. }
+  split; [|split].
+  - intros l Hl Hl'. apply Hw in Hl. apply Hw in Hl'. destruct Hl as [Hl|[i Hl]]; destruct Hl' as [Hl'|[i' Hl']]; subst; try discriminate; inversion Hl'; auto.
+  - intros l Hl Hl'. apply Hw in Hl. rewrite in_map_iff in Hl'. destruct Hl' as (v & E & _). destruct Hl as [Hl|[i Hl]]; subst; discriminate.
+  - intros l Hl Hl'. apply Hw in Hl. rewrite in_map_iff in Hl'. destruct Hl' as (v & E & _). destruct Hl as [Hl|[i Hl]]; subst; discriminate.
+Qed.
+
+(* the scripted-force task touches only fb of its variables; a bias' update() touches no fb *)
+Lemma indep_script_bias sc p : indepi (script_item sc) (bias_item p).
+Proof.
+  unfold indep. cbn [writes reads bias_item script_item].
+  assert (Hs : forall l, In l (map (fun q : nat * Z => LFb (fst q)) sc) -> exists v, l = LFb v).
+  { intros l H. rewrite in_map_iff in H. destruct H as (q & E & _). eauto. }
+  split; [|split].
+  - intros l Hl [Hl'|Hl']; apply Hs in Hl; destruct Hl as [v Hl]; subst; try discriminate.
+    rewrite in_map_iff in Hl'. destruct Hl' as (i & E & _). discriminate.
+  - intros l Hl Hl'. apply Hs in Hl. destruct Hl as [v Hl]. subst. rewrite in_map_iff in Hl'. destruct Hl' as (w & E & _). discriminate.
+  - intros l [Hl|Hl] Hl'; apply Hs in Hl'; destruct Hl' as [v Hl']; subst; try discriminate.
+    rewrite in_map_iff in Hl. destruct Hl as (i & E & _). discriminate.
+Qed.
+
+(* =========================================================================================== *)
+(* 5. Serial schedule = SMP schedule under every execution order                                 *)
+(* =========================================================================================== *)
+Lemma Permutation_concat {A} (l l' : list (list A)) : Permutation l l' -> Permutation (concat l) (concat l').
+Proof.
+  induction 1 as [|x l l' HP IH|x y l|l l' l'' HP1 IH1 HP2 IH2]; cbn [concat]; auto.
+  - apply Permutation_app_head; auto.
+  - rewrite !app_assoc. apply Permutation_app_tail. apply Permutation_app_comm.
+  - eapply perm_trans; eauto.
+Qed.
+
+Lemma pick_perm {A} (l : list A) (o : list nat) : Permutation o (seq 0 (length l)) -> Permutation (pick l o) l.
+Proof.
+  intros H. rewrite <- (pick_all l) at 2. unfold pick. apply Permutation_flat_map. exact H.
+Qed.
+
+Lemma comp_items_pairwise (ps : list (nat * nat)) : NoDup ps -> Pairwise indepi (map comp_item ps).
+Proof. intros H. apply Pairwise_map_NoDup; auto. intros a b _ _ Hne. apply indep_comp_comp; auto. Qed.
+
+(* phase 1: the parallel component loop in any order = all enabled components in canonical order *)
+Lemma smp_cvc_work_concat vs t :
+  concat (smp_cvc_work vs t) = map comp_item (active_pairs (active_vars t vs)).
+Proof.
+  unfold smp_cvc_work. rewrite <- (items_cover_concat vs (active_vars t vs)) by (apply active_vars_flags).
+  rewrite concat_map. rewrite map_map. reflexivity.
+Qed.
+
+Lemma cvc_phase vs t oc s : Permutation oc (seq 0 (length (smp_cvc_work vs t))) ->
+  seqi (runi (concat (pick (smp_cvc_work vs t) oc)) s) (runi (map comp_item (active_pairs (active_vars t vs))) s).
+Proof.
+  intros HP. apply seq_eq_sym. apply (run_perm loc_eqb loc_eqb_spec).
+  - rewrite <- smp_cvc_work_concat. apply Permutation_concat. symmetry. apply pick_perm; auto.
+  - apply Forall_map_wf. apply wf_comp.
+  - apply comp_items_pairwise. apply active_pairs_NoDup. apply active_vars_NoDup.
+Qed.
+
+(* phase 2: components of all variables followed by all collections = variable by variable *)
+Lemma collect_phase (avs : list (nat * var)) s : NoDup (map fst avs) ->
+  seqi (runi (map comp_item (active_pairs avs) ++ map collect_item avs) s) (runi (flat_map serial_var_items avs) s).
+Proof.
+  revert s. induction avs as [|p r IH]; intros s Hnd.
+  - apply seq_eq_refl.
+  - inversion Hnd as [|a l Hni Hnd']; subst.
+    unfold active_pairs. cbn [flat_map map]. fold (active_pairs r).
+    unfold serial_var_items at 1. unfold serial_evaluates. rewrite calc_cvcs_all.
+    rewrite map_app. rewrite <- !app_assoc. rewrite !(@run_app loc Z loc_eqb (map comp_item (map (pair (fst p)) (enabled (v_flags (snd p)))))).
+    cbn [app].
+    eapply seq_eq_trans.
+    + apply (run_move loc_eqb loc_eqb_spec).
+      * apply Forall_map_wf. apply wf_comp.
+      * apply Forall_map_wf. apply wf_collect.
+      * apply wf_collect.
+      * rewrite Forall_forall. intros x Hx. rewrite in_map_iff in Hx. destruct Hx as ([v c] & E & Hin). subst.
+        apply indep_collect_comp. cbn [fst]. intros Hv. apply Hni.
+        apply active_pairs_In in Hin. destruct Hin as (y & Hy & _). rewrite in_map_iff. exists (v, y). split; auto.
+    + cbn [SmpModel.run]. apply IH; auto.
+Qed.
+
+(* phase 3: the parallel bias loop (with the script task as one more item) in any order = script, then the biases in order *)
+Lemma bias_work_pairwise (abs : list (nat * bias)) (sc : list sitem) (scr : list (nat * Z)) :
+  NoDup (map fst abs) -> (sc = [] \/ sc = [script_item scr]) -> Pairwise indepi (sc ++ map bias_item abs).
+Proof.
+  intros Hnd Hsc.
+  assert (Hb : Pairwise indepi (map bias_item abs)).
+  { apply Pairwise_map_NoDup.
+    - eapply NoDup_map_inv; eauto.
+    - intros a b Ha Hb' Hne. apply indep_bias_bias. intros E. apply Hne.
+      clear - Hnd Ha Hb' E. induction abs as [|x r IH]; [inversion Ha|].
+      cbn [map] in Hnd. inversion Hnd as [|y l Hni Hnd']; subst.
+      destruct Ha as [Ha|Ha]; destruct Hb' as [Hb'|Hb']; subst; auto.
+      + exfalso. apply Hni. rewrite E. apply in_map; auto.
+      + exfalso. apply Hni. rewrite <- E. apply in_map; auto. }
+  destruct Hsc as [Hsc|Hsc]; subst; cbn [app]; auto.
+  constructor; auto. rewrite Forall_forall. intros x Hx. rewrite in_map_iff in Hx. destruct Hx as (p & E & _). subst.
+  apply indep_script_bias.
+Qed.
+
+Lemma bias_phase (abs : list (nat * bias)) (sc : list sitem) (scr : list (nat * Z)) ob s :
+  NoDup (map fst abs) -> (sc = [] \/ sc = [script_item scr]) ->
+  Permutation ob (seq 0 (length (map bias_item abs ++ sc))) ->
+  seqi (runi (pick (map bias_item abs ++ sc) ob) s) (runi (sc ++ map bias_item abs) s).
+Proof.
+  intros Hnd Hsc HP. apply seq_eq_sym. apply (run_perm loc_eqb loc_eqb_spec).
+  - eapply perm_trans; [apply Permutation_app_comm|]. symmetry. apply pick_perm; auto.
+  - rewrite Forall_app. split.
+    + destruct Hsc as [Hsc|Hsc]; subst; constructor; auto. apply wf_script.
+    + apply Forall_map_wf. apply wf_bias.
+  - eapply bias_work_pairwise; eauto.
+Qed.
+
+Lemma wf_tail c t vs : Forall wfi (tail_items c t vs).
+Proof.
+  unfold tail_items. rewrite !Forall_app. repeat split.
+  - constructor; auto. apply wf_energy.
+  - apply Forall_map_wf. apply wf_communicate.
+  - destruct (c_use_script c && c_script_after c); constructor; auto. apply wf_script.
+  - apply Forall_map_wf. apply wf_force.
+Qed.
+
+Lemma script_before_cases c :
+  (if c_use_script c && negb (c_script_after c) then script_items c else []) = [] \/
+  (if c_use_script c && negb (c_script_after c) then script_items c else []) = [script_item (c_script c)].
+Proof. destruct (c_use_script c && negb (c_script_after c)); [right|left]; reflexivity. Qed.
+
+(* (iii) the SMP schedule under every execution order of its two loops gives the store of the serial schedule *)
+Lemma smp_eq_serial (c : cfg) (t : nat) (oc ob : list nat) (s : store) :
+  Permutation oc (seq 0 (n_cvc_items c t)) -> Permutation ob (seq 0 (n_bias_items c t)) ->
+  seqi (step_smp c t oc ob s) (step_serial c t s).
+Proof.
+  intros Hoc Hob. unfold step_smp, step_serial, smp_items, serial_items. cbv zeta.
+  set (vs := prep_vars t (c_vars c)) in *.
+  set (avs := active_vars t vs).
+  set (abs := active_biases t (c_biases c)).
+  set (S := if c_use_script c && negb (c_script_after c) then script_items c else []).
+  assert (Hlen : length (smp_cvc_work vs t) = n_cvc_items c t).
+  { unfold smp_cvc_work, n_cvc_items. rewrite map_length. reflexivity. }
+  rewrite !(@run_app loc Z loc_eqb).
+  apply (run_ext loc_eqb loc_eqb_spec); [apply wf_tail|].
+  (* bias loop *)
+  unfold smp_bias_work. fold abs S.
+  eapply seq_eq_trans.
+  { apply (bias_phase abs S (c_script c)).
+    - apply active_biases_NoDup.
+    - apply script_before_cases.
+    - exact Hob. }
+  rewrite (@run_app loc Z loc_eqb S).
+  apply (run_ext loc_eqb loc_eqb_spec); [apply Forall_map_wf; apply wf_bias|].
+  apply (run_ext loc_eqb loc_eqb_spec).
+  { destruct (script_before_cases c) as [E|E]; fold S in E; rewrite E; constructor; auto. apply wf_script. }
+  apply (run_ext loc_eqb loc_eqb_spec); [constructor; auto; apply wf_reset|].
+  (* component loop and collection *)
+  eapply seq_eq_trans.
+  { apply (run_ext loc_eqb loc_eqb_spec); [apply Forall_map_wf; apply wf_collect|].
+    apply cvc_phase. rewrite Hlen. exact Hoc. }
+  rewrite <- (@run_app loc Z loc_eqb). apply collect_phase. apply active_vars_NoDup.
+Qed.
+
+(* with threads: any permutation of the items dealt to any number of threads in any way, any interleaving *)
+Lemma smp_threads_eq_serial (c : cfg) (t : nat) (s : store)
+      (ntc ntb : nat) (asc asb : nat -> nat) (orc orb lc lb : list nat) :
+  Permutation orc (seq 0 (n_cvc_items c t)) -> Permutation orb (seq 0 (n_bias_items c t)) ->
+  (forall k, k < n_cvc_items c t -> asc k < ntc) -> (forall k, k < n_bias_items c t -> asb k < ntb) ->
+  Merge (deal ntc asc orc) lc -> Merge (deal ntb asb orb) lb ->
+  seqi (step_smp c t lc lb s) (step_serial c t s).
+Proof.
+  intros Hc Hb Hac Hab Mc Mb. apply smp_eq_serial.
+  - eapply perm_trans; [symmetry; eapply schedule_perm; eauto|]; auto.
+    rewrite (Permutation_length Hc), seq_length. auto.
+  - eapply perm_trans; [symmetry; eapply schedule_perm; eauto|]; auto.
+    rewrite (Permutation_length Hb), seq_length. auto.
+Qed.
+
+(* log depth: messages of a component evaluated on a worker thread other than thread 0 are indented one level less *)
+Lemma depth_smp_thread0 base : depth_smp base 0 = depth_serial base.
+Proof. reflexivity. Qed.
+Lemma depth_smp_worker_refuted : exists base th, depth_smp base th <> depth_serial base.
+Proof. exists 0, 1. vm_compute. discriminate. Qed.
